@@ -90,6 +90,11 @@ impl Scenario for Depth {
             p.set("fix_family", fam as i64);
             let mut src = gen_benign_source(&mut rng, false);
             src.layers = gen_layers(&mut rng, 2);
+            if rng.chance(1, 6) {
+                // a *binding* memory tracker underneath: the depth wrapper must stay transparent
+                // with respect to whatever the wrapped input does with the allocation hook
+                src.layers.insert(0, Layer::Mem(*rng.pick(&[0u64, 1, 8, 64, 1000])));
+            }
             p.sources.push(src);
             return p;
         }
@@ -125,10 +130,12 @@ impl Scenario for Depth {
             let mut ls = src.clone();
             ls.layers.push(Layer::Depth(l));
             let a = (s.decode)(&bytes, &ls, Mode::Decode);
-            // (2) direct entry point on the slice
-            let b = (s.decode)(&bytes, &slice, Mode::DepthDirect(l));
+            // (2) direct entry point on the slice (only comparable when the drawn source has no
+            // binding layer of its own)
+            let binding_inner = src.layers.iter().any(|x| matches!(x, Layer::Mem(m) if *m != u64::MAX));
+            let b = if binding_inner { (s.decode)(&bytes, &ls, Mode::Decode) } else { (s.decode)(&bytes, &slice, Mode::DepthDirect(l)) };
             // (3) consume-all variant
-            let c = (s.decode)(&bytes, &slice, Mode::DecodeAllDepth(l));
+            let c = if binding_inner { (s.decode)(&bytes, &ls, Mode::Decode) } else { (s.decode)(&bytes, &slice, Mode::DecodeAllDepth(l)) };
             let binding = l < d_hi + 1;
             for (name, out) in [("layer", &a), ("direct", &b)] {
                 st.note(salt(&[s.name, name, &l.min(15).to_string(), if out.res.is_ok() { "ok" } else { "err" }]), &out.trace, binding);
@@ -161,6 +168,9 @@ impl Scenario for Depth {
             prev_ok = a.res.is_ok();
             // consume-all
             st.note(salt(&[s.name, "all", &l.min(15).to_string(), if c.res.is_ok() { "ok" } else { "err" }]), &c.trace, binding);
+            if binding_inner {
+                continue;
+            }
             match (&b.res, &c.res) {
                 (Ok(v), Ok(w)) => {
                     if b.taken != bytes.len() {
@@ -187,7 +197,7 @@ impl Scenario for Depth {
             let mut ls = src.clone();
             ls.layers.push(Layer::Depth(l));
             let a = (s.decode)(&bytes, &ls, Mode::Decode);
-            let b = (s.decode)(&bytes, &slice, Mode::DepthDirect(l));
+            let b = if src.layers.iter().any(|x| matches!(x, Layer::Mem(m) if *m != u64::MAX)) { (s.decode)(&bytes, &ls, Mode::Decode) } else { (s.decode)(&bytes, &slice, Mode::DepthDirect(l)) };
             for (name, out) in [("layer", &a), ("direct", &b)] {
                 st.note(salt(&[s.name, name, "huge", if out.res.is_ok() { "ok" } else { "err" }]), &out.trace, false);
                 match (&r.res, &out.res) {
